@@ -195,7 +195,7 @@ def case_block(ops, idx):
     return s, e
 
 
-def conc_check(ctx, module, theorems, props, what, assumptions, extra_quick=('cases=150',), extra_thorough=('cases=4000',), rule=None):
+def conc_check(ctx, module, theorems, props, what, assumptions, extra_quick=('cases=150',), extra_thorough=('cases=4000',), rule=None, pre_finish=None):
     pr = prove(ctx, module, theorems)
     ok, out = cargo_build(ctx, ["conc"])
     cov0 = lambda extra: proof_coverage(pr, "cd lean && lake build %s feoxdrv && #print axioms audit" % module, TRUSTED_COMMON, extra)
@@ -304,6 +304,8 @@ def conc_check(ctx, module, theorems, props, what, assumptions, extra_quick=('ca
         "implementation_failures": nfail, "lean_differences": diffs, "non_linearizable_histories": nonlin,
         "asan_processes": getattr(ctx, "asan_runs", 0),
     })
+    if pre_finish:
+        pre_finish(ctx, cov)
     return finish(ctx, "proof", cov, assumptions)
 
 
@@ -396,3 +398,46 @@ def scan_stage(ctx, cov):
     cov["concurrent_scan_lines"] = lines
     cov["concurrent_scan_step_histogram"] = steps
     cov["concurrent_scan_oracle_failures"] = bad
+
+
+def parse_stress(path):
+    cases, cur = [], None
+    for l in read_lines(path):
+        if l.startswith("case "):
+            cur = {"head": l, "calls": [], "rows": []}
+            cases.append(cur)
+            continue
+        if cur is None or "|" not in l:
+            continue
+        a, op, resp = [x.strip() for x in l.split("|", 2)]
+        t, i, j = a.split(" ")
+        cur["rows"].append(l)
+        cur["calls"].append({"tid": int(t), "key": "k", "op": op.split(" "), "call": int(i), "ret": int(j),
+                             "resp": [x for x in resp.split(" ") if x], "ts": None})
+    return cases
+
+
+def stress_stage(ctx, cov):
+    """free-running threads (no scheduling): every history must be explained by some sequential
+    last-writer-wins order that respects real time, permitted refusals allowed (brute-force search;
+    implementation against the specification, no model in between)"""
+    outs = run_conc(ctx, 8, ["cases=0", "stress=%d" % (250 if ctx.tier == "quick" else 8000)])
+    n = bad = overlapping = 0
+    for o in outs:
+        if "crash" in o:
+            violation(ctx, "conc harness did not finish: " + o["crash"], o["crash"], tag="crash")
+            continue
+        for c in parse_stress(os.path.join(o["dir"], "conc.stress")):
+            n += 1
+            cs = c["calls"]
+            if any(a is not b and a["call"] < b["ret"] and b["call"] < a["ret"] and a["tid"] != b["tid"] for a in cs for b in cs):
+                overlapping += 1
+            if not linearizable(cs):
+                bad += 1
+                if bad <= 2:
+                    violation(ctx, "free-running threads produced a history that no sequential last-writer-wins execution explains (%s)" % c["head"],
+                              "# thread, invocation stamp, response stamp | call | response  (stamps from one global counter)\n" + "".join(r + "\n" for r in c["rows"]), tag="stress")
+    ctx.log("stress stage: %d free-running histories (%d with overlapping calls), %d not linearizable" % (n, overlapping, bad))
+    cov["free_running_histories"] = n
+    cov["free_running_histories_with_overlap"] = overlapping
+    cov["free_running_not_linearizable"] = bad
